@@ -77,11 +77,8 @@ func c04(r *core.Report) {
 	// ---------------- p2pkeswarm
 	r.Rule("C04-P2PKE", "p2pkeswarm: source identity = fingerprint of the delivering channel's remote key; dial-side identity check; whitelist on the offered key", 6)
 	hm := needFn(r, "s/p2pkeswarm", "Swarm.handleMessage")
-	gfa := needFn(r, "s/p2pkeswarm", "Swarm.getFullAddr")
-	tell := needFn(r, "s/p2pkeswarm", "Swarm.Tell")
 	chDeliver := needFn(r, "p/p2pke", "Channel.Deliver")
 	chRemoteKey := needFn(r, "p/p2pke", "Channel.RemoteKey")
-	chSend := needFn(r, "p/p2pke", "Channel.Send")
 	localID := needField(r, "s/p2pkeswarm", "Swarm", "localID")
 	if hm != nil && chDeliver != nil && chRemoteKey != nil && localID != nil {
 		var del *ssa.Call
@@ -164,59 +161,7 @@ func c04(r *core.Report) {
 		}
 		r.Check(okWL, "C04-P2PKE", core.FnName(hm)+" whitelist", p.Pos(hm.Pos()), "inbound channels accept a key only if the whitelist accepts the fingerprint of that offered key", "the acceptance predicate of inbound channels does not apply the whitelist to the fingerprint of the offered key: a peer the whitelist rejects can establish a channel")
 	}
-	if gfa != nil && chRemoteKey != nil {
-		cut := core.CutWhere(func(cond ssa.Value) int {
-			b, ok := cond.(*ssa.BinOp)
-			if !ok || (b.Op != token.EQL && b.Op != token.NEQ) {
-				return 0
-			}
-			isFP := func(v ssa.Value) bool {
-				c, isC := v.(*ssa.Call)
-				if !isC || !isFieldFuncCall(c.Common(), "fingerprinter") {
-					return false
-				}
-				return core.DerivesFromDirect(c.Call.Args[0], func(x ssa.Value) bool {
-					rk, ok := x.(*ssa.Call)
-					return ok && core.IsCallToFn(rk.Common(), chRemoteKey)
-				})
-			}
-			isWant := func(v ssa.Value) bool {
-				f, base := core.FieldRead(v)
-				return f != nil && f.Name() == "ID" && core.Through(base) == ssa.Value(gfa.Params[2]) || f != nil && f.Name() == "ID" && core.CellOfAddrOrLoad(base, gfa.Params[2])
-			}
-			if !(isFP(b.X) && isWant(b.Y) || isFP(b.Y) && isWant(b.X)) {
-				return 0
-			}
-			if b.Op == token.EQL {
-				return 1
-			}
-			return -1
-		})
-		ok := core.GuardEdges(gfa, cut) > 0
-		reached := core.Reach(gfa, nil, cut, nil)
-		for _, ret := range core.Returns(gfa) {
-			if !reached[ret] {
-				continue
-			}
-			for _, v := range core.ReturnValues(ret, 1) {
-				if core.IsNilConst(v) {
-					ok = false
-				}
-			}
-		}
-		r.Check(ok, "C04-P2PKE", core.FnName(gfa)+" identity check", p.Pos(gfa.Pos()), "a channel is returned without error only when the fingerprint of its remote key equals the requested identity", "getFullAddr can return a channel whose authenticated key does not fingerprint to the requested identity: Tell to X encrypts to whoever answered at that transport address")
-	}
-	if tell != nil && gfa != nil && chSend != nil {
-		ok := false
-		for _, ci := range core.CallsToFn(tell, chSend) {
-			c2, idx, isR := core.CallResult(ci.Common().Args[0])
-			if isR && core.IsCallToFn(c2.Common(), gfa) && idx == 0 {
-				cut := cutErrNilOf(c2)
-				ok = core.GuardEdges(tell, cut) > 0 && core.GuardedFromEntry(tell, ci.(ssa.Instruction), cut)
-			}
-		}
-		r.Check(ok, "C04-P2PKE", core.FnName(tell)+" sends through getFullAddr", p.Pos(tell.Pos()), "the payload is sent only on the channel getFullAddr returned without error", "Tell sends on a channel that did not pass the identity check")
-	}
+	ruleP2PKEAddressee(r, "C04-P2PKE")
 
 	// the identity p2pkeswarm reports is Channel.RemoteKey(), i.e. the remote key of a session
 	// that became usable: it is authenticated only if every path to a usable session state
@@ -227,6 +172,7 @@ func c04(r *core.Report) {
 			r.Fail("typestate extraction failed: %v", ts.err)
 		} else {
 			ts.checkAuthPath("C04-P2PKE-AUTH")
+			ruleVerifyInside(r, "C04-P2PKE-AUTH")
 		}
 	}
 
@@ -521,4 +467,69 @@ func c04(r *core.Report) {
 		}
 		r.Check(ok, "C04-WL", core.FnName(checkAddr), p.Pos(checkAddr.Pos()), "checkAddr is true only when the allow function is", "checkAddr can return true for an address the allow function rejected")
 	}
+}
+
+// ruleP2PKEAddressee (shared by C04 and C01 "to whom it was told"): getFullAddr hands out a channel
+// without error only when the fingerprint of its authenticated remote key equals the identity asked
+// for, and Tell sends only through the channel it returned.
+func ruleP2PKEAddressee(r *core.Report, ruleID string) {
+	p := r.P
+	gfa := needFn(r, "s/p2pkeswarm", "Swarm.getFullAddr")
+	tell := needFn(r, "s/p2pkeswarm", "Swarm.Tell")
+	chRemoteKey := needFn(r, "p/p2pke", "Channel.RemoteKey")
+	chSend := needFn(r, "p/p2pke", "Channel.Send")
+	if gfa != nil && chRemoteKey != nil {
+		cut := core.CutWhere(func(cond ssa.Value) int {
+			b, ok := cond.(*ssa.BinOp)
+			if !ok || (b.Op != token.EQL && b.Op != token.NEQ) {
+				return 0
+			}
+			isFP := func(v ssa.Value) bool {
+				c, isC := v.(*ssa.Call)
+				if !isC || !isFieldFuncCall(c.Common(), "fingerprinter") {
+					return false
+				}
+				return core.DerivesFromDirect(c.Call.Args[0], func(x ssa.Value) bool {
+					rk, ok := x.(*ssa.Call)
+					return ok && core.IsCallToFn(rk.Common(), chRemoteKey)
+				})
+			}
+			isWant := func(v ssa.Value) bool {
+				f, base := core.FieldRead(v)
+				return f != nil && f.Name() == "ID" && core.Through(base) == ssa.Value(gfa.Params[2]) || f != nil && f.Name() == "ID" && core.CellOfAddrOrLoad(base, gfa.Params[2])
+			}
+			if !(isFP(b.X) && isWant(b.Y) || isFP(b.Y) && isWant(b.X)) {
+				return 0
+			}
+			if b.Op == token.EQL {
+				return 1
+			}
+			return -1
+		})
+		ok := core.GuardEdges(gfa, cut) > 0
+		reached := core.Reach(gfa, nil, cut, nil)
+		for _, ret := range core.Returns(gfa) {
+			if !reached[ret] {
+				continue
+			}
+			for _, v := range core.ReturnValues(ret, 1) {
+				if core.IsNilConst(v) {
+					ok = false
+				}
+			}
+		}
+		r.Check(ok, ruleID, core.FnName(gfa)+" identity check", p.Pos(gfa.Pos()), "a channel is returned without error only when the fingerprint of its remote key equals the requested identity", "getFullAddr can return a channel whose authenticated key does not fingerprint to the requested identity: Tell to X encrypts to whoever answered at that transport address")
+	}
+	if tell != nil && gfa != nil && chSend != nil {
+		ok := false
+		for _, ci := range core.CallsToFn(tell, chSend) {
+			c2, idx, isR := core.CallResult(ci.Common().Args[0])
+			if isR && core.IsCallToFn(c2.Common(), gfa) && idx == 0 {
+				cut := cutErrNilOf(c2)
+				ok = core.GuardEdges(tell, cut) > 0 && core.GuardedFromEntry(tell, ci.(ssa.Instruction), cut)
+			}
+		}
+		r.Check(ok, ruleID, core.FnName(tell)+" sends through getFullAddr", p.Pos(tell.Pos()), "the payload is sent only on the channel getFullAddr returned without error", "Tell sends on a channel that did not pass the identity check")
+	}
+
 }
